@@ -229,6 +229,8 @@ pub struct DynAcc {
     pub rlog: Vec<usize>,
     pub wlog: Vec<usize>,
     pub ctx: Arc<Ctx>,
+    /// setup creates nothing
+    pub expect: bool,
 }
 
 impl Accessor for DynAcc {
@@ -278,6 +280,9 @@ impl<'a> DynamicSystemData<'a> for DynData<'a> {
     type Accessor = DynAcc;
 
     fn setup(acc: &DynAcc, world: &mut World) {
+        if acc.expect {
+            return;
+        }
         setup_defaults(&acc.ctx, world, &acc.rlog);
         setup_defaults(&acc.ctx, world, &acc.wlog);
     }
@@ -352,6 +357,7 @@ impl DynSys {
                 rlog: reads.to_vec(),
                 wlog: writes.to_vec(),
                 ctx: ctx.clone(),
+                expect: false,
             },
             hint,
         }
